@@ -48,8 +48,18 @@ def anchor_paths(F):
     into_iter = _impl_method(F, "std::iter::IntoIterator", EVAL, "into_iter")
     if into_iter is not None:
         iter_ty = into_iter.local_ty(0)
-        # the iterator's constructor
-        anchors |= {g.path for g in _callees(F, into_iter) if g.local_ty(0) == iter_ty}
+        # the iterator's constructor (looking through public forwarders: `into_iter(self) -> (&self).into_iter() -> self.iter()`)
+        from . import idioms as I_
+        f_ = into_iter
+        for _ in range(4):
+            ctor = {g.path for g in _callees(F, f_) if g.local_ty(0) == iter_ty}
+            if ctor:
+                anchors |= ctor
+                break
+            nxt_ = I_.forwarding_target(F, f_)
+            if nxt_ is None:
+                break
+            f_ = nxt_
         nxt = _impl_method(F, "std::iter::Iterator", iter_ty, "next")
         if nxt is not None:
             # the worker producing one deal: takes the iterator mutably, returns the showdown
